@@ -70,6 +70,9 @@ pub enum Op {
     /// SQLite: a foreign writer holds the database's write lock for this long (simulated µs),
     /// starting now; it affects the next request
     ForeignLock { hold_us: i64 },
+    /// SQLite: a foreign reader keeps a read transaction open for this long (simulated µs): blocks
+    /// nobody, but no checkpoint completes and the write-ahead log grows meanwhile
+    ForeignRead { hold_us: i64 },
     /// the client retries its last upload verbatim (same ids, byte-identical body), as after a lost response
     Resend,
     /// Library only, model-free: a client created directly through the storage trait with a
@@ -94,6 +97,7 @@ impl Op {
             Op::SeedSnap { c, since, age_us } => format!("seed c{c} since={since:?} age_us={age_us:?}"),
             Op::Reconfig { days, versions } => format!("restart with targets days={days} versions={versions}"),
             Op::ForeignLock { hold_us } => format!("foreign writer holds the lock for {hold_us}us"),
+            Op::ForeignRead { hold_us } => format!("foreign reader keeps a read transaction open for {hold_us}us"),
             Op::Resend => "resend the last upload verbatim".into(),
             Op::PresetProbe { k } => format!("storage-created client #{k} with a non-nil latest id: get-child vs add-version"),
         }
@@ -104,7 +108,67 @@ pub const N_CLASSES: u8 = 7;
 
 /// Deterministic payload bytes. Every payload with len >= 8 embeds its tag so that payloads in
 /// a run are unique and every returned payload is attributable to one upload.
+fn stored_blocks(d: &[u8], out: &mut Vec<u8>) {
+    if d.is_empty() {
+        out.extend([1u8, 0, 0, 0xff, 0xff]);
+        return;
+    }
+    let n = d.chunks(65535).count();
+    for (i, c) in d.chunks(65535).enumerate() {
+        out.push(if i + 1 == n { 1 } else { 0 });
+        let l = c.len() as u16;
+        out.extend(l.to_le_bytes());
+        out.extend((!l).to_le_bytes());
+        out.extend(c);
+    }
+}
+
+/// A valid gzip stream (stored blocks only) whose content is `d`.
+pub fn gzip_stored(d: &[u8]) -> Vec<u8> {
+    let mut out = vec![0x1f, 0x8b, 8, 0, 0, 0, 0, 0, 0, 0xff];
+    stored_blocks(d, &mut out);
+    let mut crc = 0xffff_ffffu32;
+    for b in d {
+        crc ^= *b as u32;
+        for _ in 0..8 {
+            crc = if crc & 1 != 0 { (crc >> 1) ^ 0xedb8_8320 } else { crc >> 1 };
+        }
+    }
+    out.extend((!crc).to_le_bytes());
+    out.extend((d.len() as u32).to_le_bytes());
+    out
+}
+
+/// A valid zlib stream (what `Content-Encoding: deflate` means) whose content is `d`.
+pub fn zlib_stored(d: &[u8]) -> Vec<u8> {
+    let mut out = vec![0x78, 0x01];
+    stored_blocks(d, &mut out);
+    let (mut a, mut b) = (1u32, 0u32);
+    for x in d {
+        a = (a + *x as u32) % 65521;
+        b = (b + a) % 65521;
+    }
+    out.extend(((b << 16) | a).to_be_bytes());
+    out
+}
+
+
+/// Payload classes outside the `class % N_CLASSES` table: the payload is itself a complete, valid
+/// compressed stream (real payloads are compressed and encrypted by the client; a storage layer
+/// that sniffs content must not mistake them for its own encoding).
+pub const CLASS_ZLIB: u8 = 100;
+pub const CLASS_GZIP: u8 = 101;
+
 pub fn payload(seed: u64, p: &Pay) -> Data {
+    if p.class >= CLASS_ZLIB && p.len >= 32 {
+        let fixed = if p.class == CLASS_ZLIB { 6usize } else { 18 };
+        let len = p.len as usize;
+        let blocks = (len - fixed).div_ceil(65540).max(1);
+        let inner_len = len - fixed - 5 * blocks;
+        let inner = payload(seed, &Pay { class: 2, len: inner_len as u32, tag: p.tag });
+        let v = if p.class == CLASS_ZLIB { zlib_stored(&inner) } else { gzip_stored(&inner) };
+        return Arc::new(v);
+    }
     let len = p.len as usize;
     let mut v = vec![0u8; len];
     match p.class % N_CLASSES {
